@@ -33,7 +33,7 @@ fn tags_for(n: u16, seed: u64) -> Vec<u8> {
 
 fn rt_oracle(c: &RtCase, st: &mut Stats) -> Result<(), String> {
   let mds = tags_for(c.ntags, c.tag_seed);
-  let server = Server::new(registration_list(&mds)).map_err(|e| e.to_string())?;
+  let server = new_server(&mds).map_err(|e| e.to_string())?;
   let pk = server.get_public_key();
   let b = pk.serialize_to_bincode().map_err(|e| format!("pk does not serialise: {e}"))?;
   st.evals(1);
@@ -495,7 +495,9 @@ fn point_json_oracle(c: &PointJsonCase, st: &mut Stats) -> Result<(), String> {
   } else {
     no_panic(|| serde_json::from_str::<Point>(&text)).map_err(|p| format!("JSON decode panicked: {p}"))?.ok()
   };
-  let complete = c.len == 32 && !damaged;
+  // the array of 32 numbers must be accepted if that is the form the implementation itself writes
+  let writes_arrays = serde_json::to_string(&point_from(&[7u8; 32])).map(|t| t.starts_with('[')).unwrap_or(false);
+  let complete = c.len == 32 && !damaged && writes_arrays;
   match (&got, c.form) {
     (Some(p), 4) => {
       // a base64 string instead of the array: accepting it is a choice; a partial value is not
